@@ -345,7 +345,25 @@ def c09(ctx):
                'and the fingerprint of all fields after writing through &mut *x; non-trivial = more than one variant or field')
 
 
+# ---------------------------------------------------------------- C10
+def c10(ctx):
+    quick = ctx.tier == 'quick'
+    runs = [{'module': 'MC_C10', 'cfg': 'MC_C10_quick.cfg', 'workers': 8}] if quick else \
+           [{'module': 'MC_C10', 'cfg': 'MC_C10_thorough.cfg', 'workers': 12, 'timeout': 3000, 'heap': '16g'}]
+
+    def calls(r):
+        return ['run_into::<%s, %d, _>(&mut out, &dom);' % (r.name, {'A': 1, 'B': 2}[t]) for t in r.opts['targets']]
+
+    r_property(ctx, runs, ['DoSeal', 'DoBegin', 'Step', 'Return'], TypeRender, calls, [0, 1],
+               COMMON_ASSUMPTIONS + ['"for no other T" is settled at expansion level (item list of the in-process expansion), see C16/C12 checks'],
+               'struct/enum shapes (1..MaxFields fields per variant) within the bounds of the MC_C10 cfg x target sets {A}, {A,B} (both attribute orders) x field types '
+               '{A, B, convertible P} x field-level Into(T[, method]) markers, at most MaxDeviations non-default settings (t-way coverage); x.into() for every requested '
+               'target on every value, observed as the provenance of the returned value (which field it came from; returned unchanged / through From / through the method); '
+               'non-trivial = more than one variant or field, or any marker')
+
+
 REGISTRY = {
+    'C10': c10,
     'C09': c09,
     'C08': c08,
     'C06': c06,
